@@ -711,6 +711,72 @@ pub fn run_c07(tier: Tier) -> i32 {
         }
     });
     fams.push(json!({"family": "every legal move as searchmoves after an earlier search of the same position on the same engine", "positions": sm_positions.len(), "gos": stats.gos.load(Ordering::Relaxed) - before_sm, "secs": t0.elapsed().as_secs_f64()}));
+    // ---- (2c) in-search message alphabet: message X first visible at poll k1, stop at poll k2 >= k1;
+    // and stray messages while idle before the go (they must be ignored)
+    let t0 = Instant::now();
+    let before_msg = stats.gos.load(Ordering::Relaxed);
+    {
+        let msgs: Vec<GateAction> = vec![GateAction::IsReady, GateAction::Debug(true), GateAction::Debug(false), GateAction::NewGame, GateAction::PonderHit];
+        let polls: Vec<u64> = if tier == Tier::Quick { vec![1, 3, 20] } else { vec![1, 2, 3, 8, 20, 100] };
+        let mut jobs: Vec<(usize, usize, u64, u64, &str)> = Vec::new();
+        for pi in [0usize, 1, 8] {
+            for mi in 0..msgs.len() {
+                for &k1 in &polls {
+                    for &k2 in &polls {
+                        if k2 >= k1 {
+                            for go in ["go infinite", "go depth 4", "go"] {
+                                jobs.push((pi, mi, k1, k2, go));
+                            }
+                        }
+                    }
+                }
+            }
+        }
+        par_map_fine(&jobs, |&(pi, mi, k1, k2, go)| {
+            let (base, moves, tag) = &positions[pi];
+            let pos_line = position_line(base, moves);
+            let mut root = base.clone();
+            for u in moves {
+                let m = root.find_legal_uci(u).unwrap();
+                root = root.make(&m);
+            }
+            let n2 = dry_run(&pos_line, "go depth 2").0;
+            stats.gos.fetch_add(1, Ordering::Relaxed);
+            let mut s = Session::new(false);
+            // stray messages while idle
+            s.line("stop");
+            s.line("ponderhit");
+            s.line(&pos_line);
+            s.line("stop");
+            let msg = msgs[mi].clone();
+            let mut gates = vec![k1, k2];
+            gates.dedup();
+            let plan = Plan { poll: Some((1, n2)), clock: Clock::Rate { ns_per_node: 1_000, jumps: vec![] }, gates };
+            let m2 = msg.clone();
+            let out = run_go(&mut s, go, plan, &move |kk| {
+                let mut a = Vec::new();
+                if kk == k1 {
+                    a.push(m2.clone());
+                }
+                if kk == k2 {
+                    a.push(GateAction::Stop);
+                }
+                a
+            });
+            let late_best = s.settle(Duration::from_millis(1)).iter().filter(|e| matches!(e, Ev::Best(..))).count();
+            let spec = GoSpec { line: go.to_string(), needs_stop: go != "go depth 4", searchmoves: vec![] };
+            c07_judge(&rep, &root, tag, &pos_line, &spec, "1us/node", &out, late_best, json!({"message_during_search": format!("{:?}", msg), "message_at_poll": k1, "stop_at_poll": k2, "stray_stop_and_ponderhit_while_idle": true}));
+            if matches!(msg, GateAction::IsReady) && out.obs.readyoks != 1 && out.obs.parked_at.contains(&k1) {
+                rep.report("isready_during_search_not_answered_once".to_string(), json!({"kind": "go", "position": pos_line, "go": go, "readyoks": out.obs.readyoks}));
+            }
+            // and the engine still works afterwards
+            let again = run_go(&mut s, "go depth 1", Plan::virtual_rate(1_000), &none);
+            let spec1 = GoSpec { line: "go depth 1".into(), needs_stop: false, searchmoves: vec![] };
+            c07_judge(&rep, &root, tag, &pos_line, &spec1, "1us/node", &again, 0, json!({"after_message_during_search": format!("{:?}", msg)}));
+            s.quit();
+        });
+    }
+    fams.push(json!({"family": "in-search messages (isready, debug on/off, ucinewgame, ponderhit) first visible at poll k1, stop at poll k2 >= k1; stray stop/ponderhit while idle", "gos": stats.gos.load(Ordering::Relaxed) - before_msg, "secs": t0.elapsed().as_secs_f64()}));
     // ---- (3) clock schedules: all jump pairs over the clock reads of a run
     let t0 = Instant::now();
     let mut jump_runs = 0u64;
